@@ -31,6 +31,15 @@ claim('C05', 'devx',
       'Full product of the 50 signing configurations (SP AuthnRequestsSigned {absent,false,0,true,1} x SP certificate {one,none} x IdP WantAuthRequestsSigned {"",false,0,true,1}) x every valid (base message, forgery operator) pair (8 bases; 18 query-signature and 20 enveloped-signature operators incl. bit flips, edits after signing, stripping, two XSW shapes, Reference/KeyInfo/algorithm substitution, foreign keys, duplicate parameters, binding transplants) x k<=1 (quick) / k<=2 (thorough) further message dimensions. Messages are signed by an honest signer that shares no code with the repository; acceptance is read from the strict storage call log; the oracle compares what was handed to storage with the signed projection.',
       'RSA keys; forgery operators are applied singly; known findings (two root causes) are listed in known_findings.json.', '§5 C05')
 
+claim('C06', 'devx',
+      'deviation-bounded exhaustive enumeration of request/configuration shapes executed on the real SSO handler with a pinned clock',
+      'Full product of 32 IdP configurations (issuer derivation x SSO endpoint form x transport) x every assignment of 13 message-validity dimensions (base64, DEFLATE, XML root/namespace, Issuer variants, ID, Version, Destination variants, NotBefore/NotOnOrAfter offsets and lexical forms, SAMLEncoding, SigAlg-without-Signature, empty request, Host) with <= 2 (quick) / <= 3 (thorough) deviations. Acceptance is read from the storage call log; the oracle evaluates the necessary conditions of acceptance on the generator ground truth; time cells at exactly now and now +/- 1us are exact because time.Now is pinned through the overlay clock seam.',
+      'Inputs whose required fate the statement leaves open (trailing bytes after the DEFLATE stream, raw XML on Redirect) are not in the alphabet.', '§5 C06')
+claim('C08', 'bfs-depth2',
+      'exhaustive enumeration (full product) of request validity x metadata x storage answers, each as an event history of depth 2 on one real provider',
+      'Full product of 16 request-validity classes (valid x4; failing at each validation step) x 14 SP ACS metadata shapes x 6 requested bindings x 8 storage answers (persist ok / error / empty id / context-deadline / context-canceled; SP-lookup errors), every case executed twice against the same provider; thorough adds a ResponseWriter failing at write 1..3. The oracle is the outcome dichotomy of the statement, evaluated on the decoded reply (x/net/html, raw Location, xt) and the strict storage call log.',
+      'The second request of each history is identical to the first; richer histories are explored by C15/C01.', '§5 C08')
+
 NOT_YET = {i: 'check not built yet in this revision (planned: see DESIGN.md §5 %s); not claimed until its machinery exists' % i for i in ids}
 
 def main():
@@ -62,7 +71,7 @@ def main():
             'add_only': True,
         },
         'engines': [
-            {'name': 'devx', 'path': 'harness/internal/devx', 'serves_properties': sorted(C.keys()),
+            {'name': 'devx', 'path': 'harness/internal/devx', 'serves_properties': sorted(k for k in C if C[k]['engine'].startswith('devx')),
              'kind_free_text': 'deviation-bounded / full-product exhaustive enumeration of input and configuration shapes executed on the real code'},
         ],
         'checks': checks,
